@@ -231,7 +231,7 @@ fn find_slots(r: &Reach) -> Vec<Slot> {
         if *t == ElementType::ROOT {
             continue;
         }
-        for (an, spec, _) in t.attribute_spec_iter() {
+        for (an, spec, _) in attribute_specs(*t) {
             if !t.find_attribute_spec(an).is_some_and(|a| r.version.compatible(a.version)) {
                 continue;
             }
@@ -445,6 +445,9 @@ pub fn run(tier: Tier) -> i32 {
                 attrs.fetch_add(g.attrs as u64, Ordering::Relaxed);
             }
             let r = reach(*v);
+            for (kind, t, n) in listing_lookup_discrepancies(&r) {
+                ctx.violation(format!("spec|{kind}"), json!({"version": format!("{:?}", r.version), "type": t, "name": n.to_str()}));
+            }
             if g.uncoverable > 0 {
                 ctx.count("edges_excluded_because_alternative_of_mandatory_short_name", g.uncoverable as u64);
             }
